@@ -45,6 +45,42 @@ def loop_iter_sources(b, lp):
     return nx, out
 
 
+def counter_loop(b, lp, bound_param):
+    """Alternative spelling of `for _ in 0..n`: a counter that starts at the constant 0 before the loop, is compared with
+    the parameter n (`i < n`, in any spelling) in the loop's exit test, and is incremented by 1 exactly once per
+    iteration.  Returns True when `lp` is such a loop over 0..<param bound_param>."""
+    from lib.symexpr import Sym, bool_switch
+    S = Sym(b)
+    for x in sorted(lp["body"]):
+        t = b.term(x)
+        if t["k"] != "switch":
+            continue
+        outs = [y for y in b.succ[x] if y not in lp["body"]]
+        ins = [y for y in b.succ[x] if y in lp["body"]]
+        if len(outs) != 1 or len(ins) != 1:
+            continue
+        bs = bool_switch(b, S, x)
+        # canonical `i < n` on a phi counter:  Lt(phi(i), arg n) continues the loop
+        if bs is None or bs[0][0] != "Lt" or bs[0][1][0] != "phi" or bs[0][2] != ("arg", bound_param, ()) or bs[1] != ins[0]:
+            continue
+        i = bs[0][1][1]
+        defs = b.prov.defs.get(i, [])
+        inits = [d for d in defs if d[0] == "S" and d[1] not in lp["body"]]
+        steps = [d for d in defs if d[0] == "S" and d[1] in lp["body"]]
+        if len(defs) != 2 or len(inits) != 1 or len(steps) != 1:
+            continue
+        if not (inits[0][3]["rv"]["k"] == "use" and const_int(inits[0][3]["rv"]["o"]) == 0):
+            continue
+        rv = steps[0][3]["rv"]
+        # i = (i + 1) - directly or via the checked-add tuple
+        srcs = b.prov._rv(rv, (), frozenset(), steps[0][1], steps[0][2])
+        ok = any(s.kind == "binop" and s.a in ("Add", "AddWithOverflow") for s in srcs) and any(s.kind == "const" and s.a.startswith("1_") for s in srcs) and \
+            not any(s.kind == "binop" and s.a not in ("Add", "AddWithOverflow") for s in srcs) and not any(s.kind in ("param", "call", "upvar") for s in srcs)
+        if ok and b.once_per_iteration(steps[0][1], lp) and b.dominates(inits[0][1], lp["header"]):
+            return True
+    return False
+
+
 def guard_filter(b, gen_name):
     """edge filter that removes the false edge of `if needs_drop::<gen_name>()`."""
     dead = set()
@@ -149,6 +185,9 @@ def r01_1(ctx, prog, crate, rec):
                 rng_ok = any(s.kind == "variant" and s.a.endswith("ops::Range::Range") for s in srcs) and \
                     {s.label() for s in srcs if s.kind == "param"} == {"param:" + b.param_name(2)} and \
                     {s.a for s in srcs if s.kind == "const"} <= {"0_usize"} and not any(s.kind == "binop" for s in srcs)
+                if not (rng_ok and len(nx) == 1) and not nx and counter_loop(b, lp, 2):
+                    ctx.ok("R01.1", "%s|%s|%s|iterates-0..sample_size (counter loop)" % (b.path, lbl, nm))
+                    continue
                 ctx.check(rng_ok and len(nx) == 1, "R01.1", [b.path, lbl, nm, "iterates-0..sample_size"],
                           "the %s loop does not iterate 0..sample_size (%s)" % (nm, sorted(s.label() for s in srcs)), b.where(lp["header"]))
         else:
